@@ -553,6 +553,55 @@ def measure_documents(draw, MP):
     return {'types': types, 'rows': rows, 'profile': 'measures', 'pickup': pickup, 'final_barline': final}
 
 
+@st.composite
+def with_global_comments(draw, doc):
+    """the same score with one to three global comment / reference lines ('!! ...') between its rows - they are not
+    cells, so every position after the header is legal; half of them go directly after a barline row"""
+    rows = doc['rows']
+    for _ in range(draw(st.integers(1, 3))):
+        bars = [i for i, r in enumerate(rows) if 'c' in r and r['c'][0]['k'] == 'bar']
+        if bars and draw(st.booleans()):
+            pos = draw(st.sampled_from(bars)) + 1
+        else:
+            pos = draw(st.integers(1, len(rows)))
+        rows.insert(pos, {'g': draw(G.global_comments())})
+    doc['global_comments'] = True
+    return doc
+
+
+@st.composite
+def with_late_signatures(draw, doc):
+    """the same score in which ONE **kern spine states its opening signatures late: its cells in the opening block become
+    null interpretations and the signatures follow, one row each, after a later row of the score (a part that rests, or
+    plays, before its clef / key / meter are given).  Only for scores without early-ending spines."""
+    rows = doc['rows']
+    W = len(doc['types'])
+    pre = []
+    i = 1
+    while i < len(rows) and 'c' in rows[i] and all(c['k'] in ('interp', 'nullinterp') for c in rows[i]['c']):
+        if any(c.get('sig') for c in rows[i]['c']):
+            pre.append(i)
+        i += 1
+    ks = [k for k, t in enumerate(doc['types']) if t == KERN]
+    later = [j for j in range(i, len(rows) - 1) if 'c' in rows[j] and len(rows[j]['c']) == W
+             and 'c' in rows[j + 1] and len(rows[j + 1]['c']) == W
+             and not any(c['k'] == 'op' for c in rows[j]['c']) and not any(c['t'] == '*v' for c in rows[j + 1]['c'])]
+    if not pre or not ks or not later:
+        return doc
+    k = draw(st.sampled_from(ks))
+    moved = []
+    for r in pre:
+        c = rows[r]['c'][k]
+        if c.get('sig'):
+            moved.append(c)
+            rows[r]['c'][k] = G.nullinterp_cell()
+    j = draw(st.sampled_from(later))
+    for n_, c in enumerate(moved):
+        rows.insert(j + 1 + n_, _row([c if kk == k else G.nullinterp_cell() for kk in range(W)]))
+    doc['late_signatures'] = True
+    return doc
+
+
 def long_document(nrows=1300, seed=1, with_text=True):
     """a plain but LONG score (one **kern spine of notes without accidentals, rests and barlines, optionally a **text
     spine): depth of the spine tree == number of rows, which random documents never reach"""
